@@ -66,6 +66,14 @@ RULE = ("Polygons are built by construction in a local frame and then scaled by 
         "and after every call, the emissivities in the final state; non-trivial = >=2 voxels with different volumes and at "
         "least one checked state in which only a proper subset of the voxels is parented to the grid (voxel list != scene-"
         "graph children). "
+        "smalln: the estimator at small sample counts - grid_samples omitted (default 10), 1, 2, 3, 5, 7, 10: M = "
+        "min(4000, 20000/n) independent calls (12000/n through ToroidalVoxelGrid.emissivities_from_function on 1-3 copies "
+        "of the outline in drawn vertex orders, stacked in z), raysect RNG seeded once from the case; the M*n recorded "
+        "sample points are pooled (they must be independent uniform draws) and tested for inside-ness, area shares of "
+        "the independent triangulation, exact first moments (f = r, z) and centred second moments (f = r^2, r z, z^2), "
+        "every returned value must be the mean of its n function values and the mean of the M returned values must "
+        "match f(centroid) for a drawn linear field; non-trivial = raysect's triangles for a used vertex order differ in "
+        "area by >10 %. "
         "distinct = distinct JSON case.")
 ASSUMPTIONS = [
     "float vertices are taken as exact rationals; the oracle is Python integer arithmetic (signed triangle fan)",
@@ -94,6 +102,10 @@ TOLERANCES = {
                    "per test (= two-sided 6 sigma); var exact from the polygon's second moments for linear fields and "
                    "indicators (p(1-p)), var <= R^2/4 with an interval-arithmetic range R for quadratics; plus the "
                    "rounding of the N-term sequential sum, 2 (N+8) u max|f| (1e-9 (|c0|+R) for the quadratic)",
+    "smalln": "same Bernstein bound on the pooled M*n points (independent uniform draws under the property; false-alarm "
+              "probability <= 2e-9 per test); exact variance p(1-p) for area shares and from the second moments for f = r, z, "
+              "variance <= R^2/4 (interval range R about the centroid) for the second-moment fields; estimator-mean: M "
+              "independent values with sigma = sigma_f / sqrt(n) and range R",
     "inside": "every sample point inside the polygon up to a per-axis coordinate uncertainty er = 1e-12 max|r|, ez = 1e-12 "
               "max(|z|, height) (4500 u: the barycentric interpolation carries a few u x |coordinate| per axis), i.e. "
               "edge cross product >= -(|dr| ez + |dz| er); hit counts use strict float orientation tests",
@@ -124,7 +136,9 @@ REQUIRED_LABELS = ["geometry:kind=tri", "geometry:kind=rect", "geometry:kind=con
                    "grid:state=none-parented", "grid:state=grid-in-world", "grid:state=grid-detached",
                    "grid:state=voxel-in-other-node",
                    "grid:op=set_active_all", "grid:op=set_active", "grid:op=set_active_rejected", "grid:op=unparent_all",
-                   "grid:op=parent_all", "grid:op=grid_parent", "grid:op=voxel_parent", "grid:nt"]
+                   "grid:op=parent_all", "grid:op=grid_parent", "grid:op=voxel_parent", "grid:nt",
+                   "smalln:samples=default", "smalln:samples=1", "smalln:samples=2", "smalln:samples=3", "smalln:samples=10", "smalln:entry=voxel",
+                   "smalln:entry=grid", "smalln:reversed", "smalln:forward", "smalln:nt"]
 
 # open finding C17-oob-triangle-index: emissivity_from_function reads one past its triangle table with probability
 # ~ (r z / area) * 1e-16 per sample.  While it is open the sampling / grid sub-checks keep cells within 1e2 sizes of the
@@ -1367,8 +1381,164 @@ def run_grid(case, ctx):
     ctx.nt(nt)
 
 
+# ------------------------------------------------------------------------------------------------ small sample counts
+# The estimator must be unbiased at EVERY grid_samples, also the default (10) and 1, 2, 3: M independent calls are pooled.
+# Under the property every one of the M*n sample points is an independent uniform draw over the cross-section, so the
+# pooled points obey the same non-asymptotic Bernstein bounds as one big call (false-alarm probability <= 2e-9 per test,
+# the two-sided 6 sigma level); a selection rule that is only right "on average over n" (stratified / fixed counts per
+# triangle) shifts whole triangle shares by up to 1/n and does not average out over calls.
+SMALL_N = ["default", "default", 1, 2, 3, 5, 7, 10]
+
+
+def smalln_strategy():
+    return st.fixed_dictionaries({
+        "poly": poly_strategy(SAMPLING_GMAX, ["rect", "convex", "star", "star", "tmpl", "tmpl", "trap", "nearrect", "kite"]),
+        "orders": st.lists(st.tuples(st.integers(0, 11), st.booleans()).map(list), min_size=1, max_size=3),
+        "entry": st.sampled_from(["voxel", "voxel", "grid"]),
+        "n": st.sampled_from(SMALL_N),
+        "seed": st.integers(1, 2 ** 31 - 1),
+        "lin": st.tuples(st.floats(-100.0, 100.0), _coef, _coef).map(list),
+    })
+
+
+def uniformity_checks(ctx, pts, ex, tris, box, tag):
+    """pooled sample points (N x 2) against the exact polygon: inside, area shares of the own triangulation, first
+    moments (f = r, z) and centred second moments (f = r^2, r z, z^2 given the first moments)."""
+    N = len(pts)
+    r1, r2, z1, z2 = box
+    dtol = (1e-12 * max(abs(r1), abs(r2)), 1e-12 * max(abs(z1), abs(z2), z2 - z1))
+    idx = _classify(pts, tris, dtol)
+    n_out = int(np.sum(idx < 0))
+    if n_out:
+        k = int(np.argmax(idx < 0))
+        ctx.fail("inside", "%d of %d sample points lie outside the cross-section, e.g. (r=%r, z=%r) %s"
+                 % (n_out, N, pts[k, 0], pts[k, 1], tag))
+    counts = np.bincount(idx, minlength=len(tris))
+    for j, t in enumerate(tris):
+        p = float(ex.tri_fraction(*t)[0])
+        tol = bernstein(N, math.sqrt(p * (1.0 - p)), 1.0) * (1 + 1e-9) + 1e-9
+        frac = counts[j] / N
+        ctx.check(abs(frac - p) <= tol, "area-weighting",
+                  lambda: "own triangle %d %r holds %.6f of the area but received %d/%d = %.6f of the pooled samples "
+                          "(tol %.6f) %s" % (j, t, p, counts[j], N, frac, tol, tag))
+    for name, col, mu, var, R in (("r", 0, ex.fcx, ex.var_x, r2 - r1), ("z", 1, ex.fcy, ex.var_y, z2 - z1)):
+        m = float(pts[:, col].mean())
+        tol = bernstein(N, math.sqrt(var), R) * (1 + 1e-9) + 1e-12 * (abs(mu) + R)
+        ctx.check(abs(m - mu) <= tol, "mean-" + name,
+                  lambda: "f = %s: mean over %d pooled samples %r, exact area-mean %r, |diff| %.4g > %.4g (sigma %.4g) %s"
+                          % (name, N, m, mu, abs(m - mu), tol, math.sqrt(var), tag))
+    rc, zc = ex.fcx, ex.fcy
+    frc, fzc = Fr(rc), Fr(zc)
+    dr, dz = pts[:, 0] - rc, pts[:, 1] - zc
+    for name, vals, mu, q in (("r^2", dr * dr, ex.Exx - 2 * frc * ex.cx + frc * frc, [1.0, 0.0, 0.0]),
+                              ("r*z", dr * dz, ex.Exy - frc * ex.cy - fzc * ex.cx + frc * fzc, [0.0, 1.0, 0.0]),
+                              ("z^2", dz * dz, ex.Eyy - 2 * fzc * ex.cy + fzc * fzc, [0.0, 0.0, 1.0])):
+        R = _quad_range(q, (r1 - rc, r2 - rc, z1 - zc, z2 - zc))
+        mu = float(mu)
+        m = float(vals.mean())
+        tol = bernstein(N, R / 2.0, R) * (1 + 1e-9) + 1e-9 * R
+        ctx.check(abs(m - mu) <= tol, "moment-" + name,
+                  lambda: "f = %s (about the centroid): mean over %d pooled samples %r, exact area-mean %r, |diff| %.4g > %.4g %s"
+                          % (name, N, m, mu, abs(m - mu), tol, tag))
+
+
+def run_smalln(case, ctx):
+    poly = dict(case["poly"])
+    poly["verts"] = [[float(p[0]), float(p[1])] for p in poly["verts"]]
+    base = poly["verts"]
+    ex = Exact(base)
+    if not validate(poly, ex):
+        ctx.label("invalid-case-skipped")
+        return
+    _labels(ctx, poly, ex)
+    n_v = ex.n
+    n_arg = case["n"]
+    n = 10 if n_arg == "default" else int(n_arg)
+    ctx.label("samples=%s" % n_arg, "entry=" + case["entry"])
+    orders = [[int(o[0]) % n_v, bool(o[1])] for o in case["orders"]]
+    if case["entry"] == "voxel":
+        orders = orders[:1]
+    if any(o[1] for o in orders):
+        ctx.label("reversed")
+    if any(not o[1] for o in orders):
+        ctx.label("forward")
+    r1, r2 = min(p[0] for p in base), max(p[0] for p in base)
+    z1, z2 = min(p[1] for p in base), max(p[1] for p in base)
+    hgt = z2 - z1
+    # the cells: the same outline in the drawn vertex orders, stacked in z (non-overlapping) for the grid entry point
+    cells = []
+    for j, (rot, rev) in enumerate(orders):
+        dz = 1.5 * hgt * j
+        pj = dict(poly, verts=[[p[0], p[1] + dz] for p in base],
+                  kernel=None if poly["kernel"] is None else [poly["kernel"][0], poly["kernel"][1] + dz])
+        exj = Exact(pj["verts"]) if j else ex
+        if j and not validate(pj, exj):
+            continue                      # the shift rounded a near-degenerate outline out of its class: leave it out
+        cells.append((pj, exj, variant(pj["verts"], rot, rev), rot, rev))
+    k = len(cells)
+    total = 20000 if case["entry"] == "voxel" else 12000
+    M = max(200, min(4000, -(-total // n)))
+    ctx.label("M=%d" % M)
+    c0, a, b = [float(t) for t in case["lin"]]
+    rec = []
+
+    def f(r, phi, z):
+        rec.append((r, z))
+        return c0 + a * r + b * z
+    rs_seed(int(case["seed"]))
+    _stage(ctx, "construct")
+    if case["entry"] == "voxel":
+        with ctx.cut("construct"):
+            target = AxisymmetricVoxel(cells[0][2], primitive_type="csg")
+    else:
+        with ctx.cut("construct"):
+            target = ToroidalVoxelGrid([c[2] for c in cells], primitive_type="csg")
+    _stage(ctx, "%d calls with grid_samples=%s" % (M, n_arg))
+    returned = []
+    with ctx.cut("emissivity (small sample count)"):
+        for _ in range(M):
+            if case["entry"] == "voxel":
+                e = target.emissivity_from_function(f) if n_arg == "default" else target.emissivity_from_function(f, n)
+                returned.append([e])
+            else:
+                e = target.emissivities_from_function(f) if n_arg == "default" else target.emissivities_from_function(f, n)
+                returned.append([float(t) for t in e])
+    ctx.check(len(rec) == M * n * k, "sample-count",
+              lambda: "%d calls with grid_samples=%s on %d voxel(s) evaluated the function %d times, expected %d"
+                      % (M, n_arg, k, len(rec), M * n * k))
+    P = np.array(rec, dtype=float).reshape(M, k, n, 2)
+    ret = np.array(returned, dtype=float)
+    ctx.check(ret.shape == (M, k), "emissivities-shape", "returned shape %r, expected %r" % (ret.shape, (M, k)))
+    # every returned value is the mean of the n values the function returned in that call (sequential sum / n)
+    vals = c0 + a * P[..., 0] + b * P[..., 1]
+    acc = np.zeros((M, k))
+    for i in range(n):
+        acc = acc + vals[:, :, i]
+    scale = abs(c0) + (abs(a) + abs(b)) * max(abs(r1), abs(r2), abs(z1), abs(z2 + 1.5 * hgt * k))
+    ctx.close(ret, acc / n, "return-vs-samples", rtol=1e-12, scale=max(scale, 1e-300))
+    unequal_any = False
+    for j, (pj, exj, vj, rot, rev) in enumerate(cells):
+        dz = 1.5 * hgt * j
+        tag = "[%s, grid_samples=%s, %d calls pooled, voxel %d of %d, order rot=%d rev=%s]" % (case["entry"], n_arg, M, j, k, rot, rev)
+        uniformity_checks(ctx, P[:, j].reshape(M * n, 2), exj, own_triangles(pj), (r1, r2, z1 + dz, z2 + dz), tag)
+        # the estimator itself: mean of the M returned values against f(centroid) (linear field), sigma^2 = Var f / n
+        mu = c0 + a * exj.fcx + b * exj.fcy
+        R = abs(a) * (r2 - r1) + abs(b) * (z2 - z1)
+        tol = bernstein(M, lin_sd(a, b, exj) / math.sqrt(n), R) * (1 + 1e-9) + 2 * (M + n + 8) * U * scale
+        m = float(ret[:, j].mean())
+        ctx.check(abs(m - mu) <= tol, "estimator-mean",
+                  lambda: "mean of %d returned values %r, exact area-mean %r, |diff| %.4g > %.4g %s" % (M, m, mu, abs(m - mu), tol, tag))
+        ra = raysect_triangle_areas(vj)
+        if len(ra) >= 2 and max(ra) > 1.1 * min(ra):
+            unequal_any = True
+    if unequal_any:
+        ctx.label("unequal-triangles", "nt")
+    ctx.nt(unequal_any)
+
+
 SUBCHECKS = {
     "geometry": Given(geometry_strategy, run_geometry, quick=1400, thorough=30000),
     "sampling": Given(sampling_strategy, isolated("sampling", run_sampling), quick=1000, thorough=24000),
     "grid": Given(grid_strategy, isolated("grid", run_grid), quick=800, thorough=12000),
+    "smalln": Given(smalln_strategy, isolated("smalln", run_smalln), quick=600, thorough=10000),
 }
